@@ -125,17 +125,16 @@ Definition peers_slot (slot : option mupdate) : option N :=
   | None => None
   end.
 
-(* PROPERTY PREDICATE on what the implementation reports at the end of a script: status of every
-   response channel in creation order (0 pending, 1 answered Ok, 2 sender dropped unanswered,
-   3 answered with an error) and the number of responses still attached to the slot.
-   Demanded: no channel is dropped or failed; the answered ones are exactly the first ones (in
-   order), and the pending ones are exactly those still attached to the slot. *)
-Fixpoint all_status (x : N) (l : list N) : bool :=
-  match l with [] => true | y :: r => (y =? x) && all_status x r end.
-Fixpoint status_ok (st : list N) (pending_in_slot : nat) : bool :=
-  match st with
-  | [] => match pending_in_slot with O => true | _ => false end
-  | x :: r =>
-      if x =? 1 then status_ok r pending_in_slot
-      else all_status 0 st && (List.length st =? pending_in_slot)%nat
-  end.
+(* PROPERTY PREDICATE on what the implementation reports at the end of a script: the status of
+   every response channel in creation order (0 still pending, 1 answered Ok, 2 sender dropped
+   without an answer, 3 answered with an error) and the number of responses still attached to the
+   slot.  Demanded ("a requested refresh is eventually answered"): no channel was dropped or
+   failed, and every channel that is not answered yet is still attached to the slot (so the
+   consumer will answer it when it takes the value). *)
+Definition status_ok (st : list N) (pending_in_slot : N) : bool :=
+  forallb (fun x => (x =? 0) || (x =? 1)) st &&
+  (N.of_nat (List.length (filter (N.eqb 0) st)) =? pending_in_slot).
+
+(* the statuses the model predicts: the answered requests are a prefix of the requested ones *)
+Definition model_status (s : hstate) : list N :=
+  repeat 1 (List.length (h_answered s)) ++ repeat 0 (List.length (responses_slot (h_slot s))).
